@@ -18,6 +18,7 @@ EXPLANATION = (
     "Equality of results across histories as such is NOT decided - only that these channels are closed."
     ' (R1, round 3) `self.a += value` counts as an in-place extension of whatever self.a aliases when self.a is assigned a container in the same function.'
     ' (R5, seeds 6) every solve() of a search wrapper restarts the clock its time limit is measured against, unconditionally and before the elapsed time is read.'
+    ' (R1, hunt 7) values of a shallow graph copy are replaced, never updated in place; (R5) a cached lower bound whose computation fails is reset.'
 )
 DECIDED = ["caller-owned graphs, option dicts, constraint and ignore lists are never written (alias + effect analysis)",
            "shared mutable defaults are never written", "no state shared between models through class attributes / globals"]
@@ -55,6 +56,8 @@ def check(prog: Program, rep):
     r4(prog, rep, am)
     scheduler_reconciled(prog, rep)
     run_clock_restarted(prog, rep)
+    no_inplace_on_shared_values(prog, rep)
+    partial_cache_reset(prog, rep)
 
 
 def mutable_default_params(f: FuncInfo) -> Dict[str, str]:
@@ -213,6 +216,87 @@ def run_clock_restarted(prog, rep):
             rep.violation("C18.R5", key, "solve() reads the elapsed time of a clock it never starts: the time limit is measured from an earlier call", f.loc())
     if n < 4:
         raise AnalysisError(f"search wrappers with a run clock: only {n} found")
+
+
+def no_inplace_on_shared_values(prog, rep):
+    """`G2.add_edges_from(G.edges(data=True))` gives the copy its own attribute dictionaries but the *same value objects*.  An augmented assignment on such
+    a value (`G2[u][v][attr] -= x`) is an in-place operation when the value is a mutable number (a 0-dimensional numpy array): the caller's graph changes.
+    Values of the flow attribute in a scratch graph are replaced (`= old - x`), never updated in place."""
+    n = 0
+    for f in prog.all_functions():
+        shallow = [c for c in calls_in(f.node) if isinstance(c.func, ast.Attribute) and c.func.attr in ("add_edges_from", "add_nodes_from") and c.args and
+                   "data=True" in norm(c.args[0])]
+        if not shallow:
+            continue
+        copies = {norm(c.func.value) for c in shallow}
+        for a in ast.walk(f.node):
+            if isinstance(a, ast.AugAssign) and isinstance(a.target, ast.Subscript):
+                base = a.target
+                while isinstance(base, ast.Subscript):
+                    base = base.value
+                if norm(base) in copies or (isinstance(base, ast.Attribute) and norm(base.value) in copies):
+                    n += 1
+                    rep.violation("C18.R1", f"{f.qualname}:in-place-on-shared-value", f"`{norm(a)[:80]}` updates in place a value of `{norm(base)}`, whose edges were copied with "
+                                  "`add_edges_from(<edges>(data=True))`: the attribute dictionaries are new, the value objects are the caller's - for a mutable number (a "
+                                  "0-dimensional numpy array) the caller's flow values are overwritten (kFlowDecomp leaves them at 0 and reports the weights [0.0, 0.0])",
+                                  f.loc(a))
+        for a in ast.walk(f.node):
+            if isinstance(a, ast.Assign) and len(a.targets) == 1 and isinstance(a.targets[0], ast.Subscript) and isinstance(a.value, ast.BinOp) and \
+                    norm(a.value.left) == norm(a.targets[0]):
+                base = a.targets[0]
+                while isinstance(base, ast.Subscript):
+                    base = base.value
+                if norm(base) in copies:
+                    n += 1
+                    rep.ok("C18.R1", f"{f.qualname}:in-place-on-shared-value", f"`{norm(a.targets[0])[:60]}` is replaced by a new value", f.loc(a))
+    if n == 0:
+        raise AnalysisError("no update of a value in a shallow graph copy found (stDAG.decompose_using_max_bottleneck expected)")
+
+
+def partial_cache_reset(prog, rep):
+    """A method that answers from an attribute when it is set (`if self.X != None: return self.X`) and otherwise computes X in several steps, storing the
+    intermediate value, leaves a *partial* value behind when a later step raises: the next call returns it as if it were finished, so a second solve() of
+    the same model takes another route than the first.  Either X is stored only at the end, or the steps run inside a try whose handler resets X to None
+    and re-raises."""
+    n = 0
+    for f in prog.all_functions():
+        if f.cls is None or f.name != "get_lowerbound_k":
+            continue
+        guard = None
+        for st in f.node.body:
+            if isinstance(st, ast.If) and isinstance(st.test, ast.Compare) and len(st.test.ops) == 1 and isinstance(st.test.ops[0], (ast.NotEq, ast.IsNot)) and \
+                    isinstance(st.test.comparators[0], ast.Constant) and st.test.comparators[0].value is None and norm(st.test.left).startswith("self.") and \
+                    any(isinstance(b, ast.Return) and b.value is not None and norm(b.value) == norm(st.test.left) for b in st.body):
+                guard = norm(st.test.left)
+        if guard is None:
+            continue
+        n += 1
+        key = f"{f.qualname}:partial-cache-reset"
+        stores = [st for st in ast.walk(f.node) if isinstance(st, ast.Assign) and any(norm(t) == guard for t in st.targets)]
+        calls = [c for c in calls_in(f.node) if (dotted(c.func) or "") not in ("max", "min", "len", "set", "int", "math.ceil", "math.log2", "math.isfinite", "utils.logger.info",
+                                                                                 "utils.logger.debug") and not (isinstance(c.func, ast.Attribute) and c.func.attr in ("get", "union"))]
+        risky = [st for st in stores if not (isinstance(st.value, ast.Constant) and st.value.value is None) and any(c.lineno > st.lineno for c in calls)]
+        if not risky:
+            rep.ok("C18.R5", key, f"`{guard}` is stored when the computation is finished", f.loc())
+            continue
+        tries = [t for t in ast.walk(f.node) if isinstance(t, ast.Try)]
+        covered = True
+        for st in risky:
+            inside = [t for t in tries if any(x is st for b in t.body for x in ast.walk(b))]
+            good = [t for t in inside if any(any(isinstance(h_st, ast.Assign) and any(norm(tt) == guard for tt in h_st.targets) and isinstance(h_st.value, ast.Constant) and
+                                                    h_st.value.value is None for h_st in h.body) and any(isinstance(h_st, ast.Raise) and h_st.exc is None for h_st in h.body)
+                                             for h in t.handlers)]
+            later = [c for c in calls if c.lineno > st.lineno]
+            if not good or not all(any(x is c for t in good for b in t.body for x in ast.walk(b)) for c in later):
+                covered = False
+        if covered:
+            rep.ok("C18.R5", key, f"a failing step resets `{guard}` to None and re-raises", f.loc(risky[0]))
+        else:
+            rep.violation("C18.R5", key, f"`{norm(risky[0])[:80]}` stores an unfinished value of `{guard}` before steps that can raise, and nothing resets it: after a failed call "
+                          "the next call returns the partial value (`if " + guard + " != None: return ...`) - MinFlowDecompCycles with an ignore list naming an absent edge raises "
+                          "ValueError from the first solve() and returns True from the second", f.loc(risky[0]))
+    if n < 2:
+        raise AnalysisError(f"get_lowerbound_k with a cached bound: only {n} found")
 
 
 def r3(prog, rep):
